@@ -106,3 +106,11 @@ Theorem C09_map_removed_key_stays_absent {V O E} (vo : valops V O E) (H : list (
     mentries s !! k = None /\ rval (mget s k) = None /\ rm_clock (mget s k) = ∅.
 Proof. exact (map_removed_key_stays_absent' vo H). Qed.
 Print Assumptions C09_map_removed_key_stays_absent.
+
+(** * Map<K, Orswot<M>>: re-applying a known op changes no member table (causal op-based delivery) *)
+From Crdt Require Import spec.MapOrswotSpec proofs.MapOrswot.
+Theorem C09_mapor_dup_absorb (H : list (oprec (mop oop))) (s : cmap orswot) (K : gset nat) (i : nat) (o : oprec (mop oop)) :
+  mohist_ok H -> moreach H s K -> H !! i = Some o -> i ∈ K -> adm_causal H K i ->
+  forall k, mo_state_entries (mapply orswot_valops s (op_val o)) k = mo_state_entries s k.
+Proof. exact (mapor_dup_absorb H s K i o). Qed.
+Print Assumptions C09_mapor_dup_absorb.
